@@ -51,3 +51,38 @@ Qed.
 
 Example C04_rejected_nonvacuous : let s := fst (reach [1] 1000 5 [SubscribeCall 0 1; Reject 0 7; HandlerReturn 0 (CNotif 3); CloseNotify 0; WriterStep 0]) in exists b, nth_error (subs s) 0 = Some b /\ ~ accepted b /\ map c_wire (conns s) = [[FErr 1 (ERejected 7)]].
 Proof. vm_compute. eexists. split; [reflexivity|]. split; [intros [H | H]; discriminate H | reflexivity]. Qed.
+
+(* ==================================================================================================================
+   C04, back-pressure block (engine `sinkbp`).  Model/SinkQueue.v: ONE subscription's sink over the bounded channel
+   of capacity c (Methods::subscribe / raw_json_request), with SubscriptionSink::{send, try_send, send_timeout},
+   the messages the failed sends hand back to the handler (`held`, by slot), their re-send through any of the three
+   paths, the receiver (`recv`) and its `close`.  `run sid me (init c) ops` = final state and trace (op, result) of
+   ANY list of operations; `received` = frames the receiver got, `oklog` = payloads of the sends that reported Ok in
+   the order they succeeded (computed from the trace alone), `produced` = payloads of the fresh sends of the history;
+   `to_json sid me (NeedsData (payload x))` is the notification {"jsonrpc":"2.0","method":me,"params":{"subscription":
+   sid,"result":x}} of payload x.
+   ================================================================================================================== *)
+From JV Require Import Base.Bytes Model.SinkQueue Proofs.SinkQueueFacts.
+
+Theorem C04_bp_wrap_idempotent : forall sid me c ops, let r := run sid me (init c) ops in (forall m, to_json sid me (Complete (to_json sid me m)) = to_json sid me m) /\ (forall f, In f (received (snd r) ++ q (fst r)) -> exists x, In x (produced ops) /\ f = to_json sid me (NeedsData (payload x))) /\ (forall k m, In (k, m) (held (fst r)) -> exists x, In x (produced ops) /\ to_json sid me m = to_json sid me (NeedsData (payload x)) /\ (m = Complete (to_json sid me (NeedsData (payload x))) \/ (closed (fst r) = true /\ m = NeedsData (payload x)))).
+Proof. exact wrap_idempotent. Qed.
+Print Assumptions C04_bp_wrap_idempotent.
+
+Theorem C04_bp_fifo_exact : forall sid me c ops, let r := run sid me (init c) ops in received (snd r) ++ q (fst r) = map (fun x => to_json sid me (NeedsData (payload x))) (oklog (snd r)).
+Proof. exact fifo_exact. Qed.
+Print Assumptions C04_bp_fifo_exact.
+
+Theorem C04_bp_bounded : forall sid me, (forall c ops, length (q (fst (run sid me (init c) ops))) <= c) /\ (forall s o, is_send o = true -> snd (SinkQueue.step sid me s o) <> ROk -> q (fst (SinkQueue.step sid me s o)) = q s /\ closed (fst (SinkQueue.step sid me s o)) = closed s /\ cap (fst (SinkQueue.step sid me s o)) = cap s).
+Proof. exact bounded. Qed.
+Print Assumptions C04_bp_bounded.
+
+Theorem C04_bp_nothing_after_close : forall sid me c ops1 ops2, let s1 := fst (run sid me (init c) (ops1 ++ [OClose])) in let r2 := run sid me s1 ops2 in closed s1 = true /\ (forall o, ~ In (o, ROk) (snd r2)) /\ q s1 = received (snd r2) ++ q (fst r2) /\ closed (fst r2) = true.
+Proof. exact nothing_after_close. Qed.
+Print Assumptions C04_bp_nothing_after_close.
+
+(* non-vacuity: capacity 1; 7 goes in, 8 times out and comes back Complete, 7 is received, 8 is re-sent (try_send) and
+   received exactly as produced; after close a fresh 9 is refused and handed back as it was given *)
+Definition ex_bp_ops : list op := [OSend PSend 7 7; OSend PTimeout 8 8; ORecv; OResend PTry 8; ORecv; OClose; OSend PTry 9 9; ORecv].
+
+Example C04_bp_nonvacuous : let r := run 1000 b#"note" (init 1) ex_bp_ops in let it := fun x => to_json 1000 b#"note" (NeedsData (payload x)) in map snd (snd r) = [ROk; RTimeout (Complete (it 8%N)); RFrame (it 7%N); ROk; RFrame (it 8%N); RDone; RClosed (NeedsData (payload 9)); REnd] /\ received (snd r) = [it 7%N; it 8%N] /\ oklog (snd r) = [7%N; 8%N] /\ held (fst r) = [(9%N, NeedsData (payload 9))] /\ it 8%N = b#"{""jsonrpc"":""2.0"",""method"":""note"",""params"":{""subscription"":1000,""result"":8}}".
+Proof. vm_compute. repeat split. Qed.
